@@ -14,9 +14,9 @@ READY = True
 META = {
     "technique": "Lean 4 proofs about executable models (integer kernels, parser call graph regenerated from source, parser nesting accounting, a verified operand-stack certificate checker run on every real instruction stream = translation validation), scope-stack programs of compiler/meta.rs and kinded-stack programs of codegen.rs's pending_block regenerated from the source text and checked by verified checkers, a regenerated table of ALL potential crash sites of the crate against a hand-made classification), tied by differential runs through the public API and a verif_hooks observation of the VM's operand stack; plus a crash oracle (child processes, signals, panic hook) over builtins x boundary arguments, format strings from a grammar, grammar-aware template mutants, nesting-depth probes (incl. chains stacked through every grouping primary, derived from the nesting model), width probes around every integer constant of compiler/ and vm/, engine objects read after their scope ended, systematic construct compositions (every statement kind in every container kind to depth 2 exhaustively, deeper sampled, with user statements before/after at every level, loaded through seven API paths + undeclared_variables + render), accumulate-loop probes on a 256 KiB stack, the whole minijinja-contrib surface, every builtin x value kind (strings in every safety state) in every argument position x undefined behaviour, and every t/e stream under a configuration axis (undefined behaviour x trim_blocks/lstrip_blocks/keep_trailing_newline x six syntax configurations x debug/recursion-limit/json-name)",
     "category": "proof",
-    "text": "PARTIAL. Proved: (i) kernels — the models of functions::range (incl. exactness of every item), Loop::cycle and the loop attributes, ops::mul string/tuple/list repetition, filters::indent/tojson indent, format width/precision and zero padding of grouped numbers, filters::batch/slice count arithmetic, the filter/test local ids of codegen get_local_id vs the VM caches of get_or_lookup_local (MAX_LOCALS from both files), lexer advance/syntax_error u16 columns + debug caret line, ops::slice never reach a Rust panic for any input in the machine ranges, every infallible allocation sized by a template-chosen number is bounded by a named constant regenerated from the sources, MergeSeq nesting stays within MAX_DEPTH; (ii) parser — on the call graph regenerated from parser.rs every chain of Parser method calls that avoids with_recursion_guard! has fewer than 16 edges (every cycle guarded, native parser depth < (MAX_RECURSION+1)*16 frames) except the elif self-recursion (recorded finding); the parser's expr_nesting accounting computes exactly the longest loop-built chain on any path, so whatever parses has AST depth <= 2*MAX_EXPR_NESTING + 3*MAX_RECURSION + 1 = 2451 (elif chains excluded); (iii) VM operand stack — checkStk_sound: if the verified checker accepts a certificate for an instruction stream then in EVERY reachable state of the abstract stack machine (all branches, iteration counts, loop(...) recursion depths, arbitrary pushed values) no instruction pops/peeks/indexes what is not there (Stack::pop/peek unwrap, get_call_args/drop_top/reverse_top lengths, dynamic argument counts incl. the filtered-loop idiom as a counted segment, args[0] of method calls, build_macro's list); the check runs the verified checker on every stream the real compiler produces for ~10^5 templates. (iv) load-time assignment tracker (compiler/meta.rs, behind find_macro_closure for every macro / call block and behind undeclared_variables): on the scope-stack programs regenerated from the source every function — every arm of track_walk — pops only what it pushed and ends at its entry height on every path, hence for EVERY AST `assign` (`last_mut().unwrap()`) is never reached with an empty scope stack (meta_scopes_no_panic, meta_walk_arm_height_unchanged; Scopes.exec_sound is the general soundness theorem of the checker); (v) code generator: on the kinded-stack programs regenerated from codegen.rs every method agrees with its (inferred, then checked) signature, hence the `unreachable!()` of end_scope / end_condition / sc_bool and `assert!(pending_block.is_empty())` of finish are unreachable for every AST (codegen_pending_block_safe); (vi) Instructions::get_line / get_span index in range for every table and pc, SmallStr slices in range and its u8 length lossless; (vii) the regenerated table of ALL 493 potential crash sites of the crate's non-test code (unwrap, expect, unreachable!/panic!/assert!, indexing, slicing, integer `as` casts, syntactic arithmetic; 271 rows = file::function::kind) equals the hand-made classification row by row with the same counts (all_panic_sites_classified) — class a (proved in a kernel model, theorem named): 65 rows / 139 sites, b (guarded in the same function, guard text regenerated and compared: panic_guards_as_tabled): 27 / 36, c (outside the quantifier: poisoned mutex, allocation of fixed types, host macros, macro syntax): 20 / 27, d (crash-oracle streams only): 159 / 291; a new unwrap()/index/cast/arithmetic site, or one that moves, breaks the theorem with a pointer to the row. (viii) integer arithmetic of the VM (MJ/Model/IntOps.lean: ops::add/sub/mul/rem/int_div/pow/neg on integers of every width coerced to i128, filters::abs): intOps_no_panic for ALL pairs of integers, intOps_exact (a returned value is the exact Euclidean result and fits i128); callArgs_fit_u16 (the static argument count of every call the parser accepts — limit regenerated from parse_args — fits the u16 of the call instructions, the assert of compile_call_args cannot fail); reprStr_no_panic (MJ/Model/ReprStr.lean: python_string_debug_fmt flushes only slices between character boundaries, for every string and every escaping rule). (ix) C01_statement / C01_main: the property as stated over an abstract engine follows from eight NAMED gap hypotheses (structure Gaps: sites_complete, classA_model_is_code, classB_guard_adequate, classC_outside_quantifier, classD_searched, callee_searched, stack_searched, alloc_bounded) and the proved tie all_panic_sites_classified. Searched, not proved: that the class-d sites and everything that is not a syntactic site (native stack, allocator, callee panics inside std / dependencies) never crash.",
+    "text": "PARTIAL. Proved: (i) kernels — the models of functions::range (incl. exactness of every item), Loop::cycle and the loop attributes, ops::mul string/tuple/list repetition, filters::indent/tojson indent, format width/precision and zero padding of grouped numbers, filters::batch/slice count arithmetic, the filter/test local ids of codegen get_local_id vs the VM caches of get_or_lookup_local (MAX_LOCALS from both files), lexer advance/syntax_error u16 columns + debug caret line, ops::slice never reach a Rust panic for any input in the machine ranges, every infallible allocation sized by a template-chosen number is bounded by a named constant regenerated from the sources, MergeSeq nesting stays within MAX_DEPTH; (ii) parser — on the call graph regenerated from parser.rs every chain of Parser method calls that avoids with_recursion_guard! has fewer than 16 edges (every cycle guarded, native parser depth < (MAX_RECURSION+1)*16 frames) except the elif self-recursion (recorded finding); the parser's expr_nesting accounting computes exactly the longest loop-built chain on any path, so whatever parses has AST depth <= 2*MAX_EXPR_NESTING + 3*MAX_RECURSION + 1 = 2451 (elif chains excluded); (iii) VM operand stack — checkStk_sound: if the verified checker accepts a certificate for an instruction stream then in EVERY reachable state of the abstract stack machine (all branches, iteration counts, loop(...) recursion depths, arbitrary pushed values) no instruction pops/peeks/indexes what is not there (Stack::pop/peek unwrap, get_call_args/drop_top/reverse_top lengths, dynamic argument counts incl. the filtered-loop idiom as a counted segment, args[0] of method calls, build_macro's list); the check runs the verified checker on every stream the real compiler produces for ~10^5 templates. (iv) load-time assignment tracker (compiler/meta.rs, behind find_macro_closure for every macro / call block and behind undeclared_variables): on the scope-stack programs regenerated from the source every function — every arm of track_walk — pops only what it pushed and ends at its entry height on every path, hence for EVERY AST `assign` (`last_mut().unwrap()`) is never reached with an empty scope stack (meta_scopes_no_panic, meta_walk_arm_height_unchanged; Scopes.exec_sound is the general soundness theorem of the checker); (v) code generator: on the kinded-stack programs regenerated from codegen.rs every method agrees with its (inferred, then checked) signature, hence the `unreachable!()` of end_scope / end_condition / sc_bool and `assert!(pending_block.is_empty())` of finish are unreachable for every AST (codegen_pending_block_safe); (vi) Instructions::get_line / get_span index in range for every table and pc, SmallStr slices in range and its u8 length lossless; (vii) the regenerated table of ALL 493 potential crash sites of the crate's non-test code (unwrap, expect, unreachable!/panic!/assert!, indexing, slicing, integer `as` casts, syntactic arithmetic; 271 rows = file::function::kind) equals the hand-made classification row by row with the same counts (all_panic_sites_classified) — class a (proved in a kernel model, theorem named): 67 rows / 146 sites, b (guarded in the same function, guard text regenerated and compared: panic_guards_as_tabled): 27 / 36, c (outside the quantifier: poisoned mutex, allocation of fixed types, host macros, macro syntax): 20 / 27, d (crash-oracle streams only): 157 / 284; a new unwrap()/index/cast/arithmetic site, or one that moves, breaks the theorem with a pointer to the row. (viii) integer arithmetic of the VM (MJ/Model/IntOps.lean: ops::add/sub/mul/rem/int_div/pow/neg on integers of every width coerced to i128, filters::abs): intOps_no_panic for ALL pairs of integers, intOps_exact (a returned value is the exact Euclidean result and fits i128); callArgs_fit_u16 (the static argument count of every call the parser accepts — limit regenerated from parse_args — fits the u16 of the call instructions, the assert of compile_call_args cannot fail); debugWindow_no_panic (the source-line window of the debug output); reprStr_no_panic (MJ/Model/ReprStr.lean: python_string_debug_fmt flushes only slices between character boundaries, for every string and every escaping rule). (ix) C01_statement / C01_main: the property as stated over an abstract engine follows from eight NAMED gap hypotheses (structure Gaps: sites_complete, classA_model_is_code, classB_guard_adequate, classC_outside_quantifier, classD_searched, callee_searched, stack_searched, alloc_bounded) and the proved tie all_panic_sites_classified. Searched, not proved: that the class-d sites and everything that is not a syntactic site (native stack, allocator, callee panics inside std / dependencies) never crash.",
     "design_ref": "DESIGN.md §3 C01, §4",
-    "level_note": "What is PROVED (kernel-checked, axioms propext/Classical.choice/Quot.sound only): MJ.C01.*_no_panic / *_alloc_le / range_items_exact / mergeSeq_depth_bounded about the hand-transcribed kernels in MJ/Model/Kernels.lean (+ Slice.lean via C09), validated against the real code on their whole boundary boxes through templates/Expression::eval/formatting::format (value and panic/no-panic outcome compared with drive_c01); MJ.C01.parser_cycles_guarded by `decide +kernel` on the call graph that lib/tables/c01.py regenerates from parser.rs, with MJ.CallGraph.runBound_sound / chain_length_lt; MJ.C01.nesting_exact / nesting_error_exact / ast_depth_bound about MJ/Model/Nesting.lean (hand model of the guard counter and of the expr_nesting save/reset/bump/max protocol; the protocol's presence in every loop function is checked textually by the extractor, the accept/reject verdicts of the real parser are compared with the model on derivations around the limit, unparsed to source); MJ.C01.checkStk_sound (MJ/Model/Stk.lean, MJ/Proofs/Stk.lean): soundness of the operand-stack certificate checker for the abstract machine of one eval_impl activation incl. loop recursion (relative stacks, floors of recursive loops). MJ.C01.meta_scope_table_balanced / meta_walk_arms_balanced / meta_scopes_no_panic / meta_walk_arm_height_unchanged (MJ/Model/Scopes.lean, MJ/Proofs/Scopes.lean: big-step semantics of scope-stack programs incl. mutual recursion, silent Vec::pop, mem::replace isolation; the programs are REGENERATED by lib/tables/c01.py + lib/c01_rustscan.py from the text of meta.rs — push/pop/assign/if/match/for/closures; the shapes of AssignmentTracker::{push,pop,assign,is_assigned} and the one-scope initial stack are checked textually; functions without scope operations are over-approximated by any number of their need/call events in any order); MJ.C01.codegen_pending_block_table_ok / codegen_pending_block_safe (MJ/Model/KStack.lean, MJ/Proofs/KStack.lean: programs over stacks of PendingBlock kinds with per-method signatures, regenerated from codegen.rs incl. early returns rewritten structurally, the sub-generator of {% block %} and a driver `compile_stmt* ; finish` as entry points; only the KIND discipline is modelled, the `unreachable!()` arms that depend on WHICH instruction a remembered index points to stay class d); MJ.C01.getLine_no_panic / getSpan_no_panic (about C13's model MJ/Model/Loc.lean, binary search contract Ok(i) ⇒ i < len, Err(i) ⇒ i ≤ len), smallStr_no_panic / smallStr_char_fits (MJ/Model/Sites.lean, capacity regenerated); MJ.C01.all_panic_sites_classified / panic_guards_as_tabled / panic_evidence_given / panic_site_class_counts by `decide +kernel` on MJ.Gen.panicSites vs MJ/Model/PanicSites.lean (the classification is a HAND judgement per row: class a means the named theorem covers the arithmetic / access of that function in its kernel model, class b that the tabled guard is adequate — the theorem only guarantees that the table is complete, that counts and guards have not changed, and that evidence is named; the scanner is syntactic: `arith` counts every binary + - * / % << >> and compound assignment incl. float and checked contexts, method-call panics such as RefCell borrows or slice::copy_from_slice are not sites). MOVED FROM VALIDATED TO PROVED in this round: the scope stack of meta.rs (1 site, was oracle only and the seeded C01-5 was missed), pending_block kind discipline (4 sites), get_line/get_span (6 sites), SmallStr (5 sites). MOVED FROM VALIDATED TO PROVED in session 4: the integer arms of ops::add/sub/mul/rem/int_div/pow/neg and filters::abs (MJ.C01.intOps_no_panic for all integer pairs, intOps_exact; hand transcription MJ/Model/IntOps.lean incl. the plain `a * a` / `b % 2` of the unit-base fallback and `(x as i128).abs()`; checkedPow decides |a| >= 2, e >= 128 without computing the power — a definitional shortcut of the model, not proved equal to a^e; correspondence: stream `k intop` = 6 binary operators x 33x33 boundary integers of all four representations + neg/abs, value compared with drive_c01; `k intoplit` the same through literals = constant folding, oracle only) — 6 rows / 12 sites from d/b to a; compile_call_args assert + casts (MJ.C01.callArgs_fit_u16 with Gen.parserMaxArgs regenerated; probes `d w:<kind> 65535/65536` for every counted construct) — 2 rows / 4 sites; python_string_debug_fmt (MJ.C01.reprStr_no_panic, all strings, all escaping rules; correspondence `k reprstr`: all strings of length <= 3 over a 16-character alphabet of every escaping class and UTF-8 width, number of bytes written compared) — 3 rows / 6 sites; C01_statement + C01_main (the gap as named hypotheses, see text). The classification follows /repo HEAD (debug.rs render_debug_info lost its 6 unwraps in fix 959b12c). NOT proved: the code generator's output — covered by translation validation (the verified checker accepts every real stream of the run: fixtures, builtin-call templates, compiling mutants, depth-probe templates), not by a theorem about codegen.rs; the effect table mapping Instruction -> abstract instruction is a hand transcription (harness stk_tok, exhaustive match) tied dynamically by the verif_hooks::opstack hook (every dispatched instruction of every render: observed height transition vs table). What is ONLY SEARCHED (bounded, sampled; a finding is a witness, absence of findings is not a proof): native stack use of the AST walkers, of Value Display/serialize/Drop on deeply nested run-time values and of VM re-entry (AST depth is bounded by theorem, frame sizes are not modelled), allocator behaviour, the frame/capture stacks (C05), every builtin filter/test/function/loop/namespace/macro call on a boundary value zoo, format-string grammar, template mutants, error formatting; only the harness' dev profile (opt-level 1, overflow checks + debug assertions) in the quick tier, release added in thorough. Assumed: the guard macro has the extracted shape (checked textually), size_of::<Value>() = 24 (checked at run time), 64-bit target, allocation failure below the named limits does not occur (2 GiB cap in the workers), a loop object is only called where the model allows recursion (any CallFunction with one argument / FastRecurse may enter any recursive loop of the stream). Hangs (timeouts) are reported in the histogram, not counted as crashes.",
+    "level_note": "What is PROVED (kernel-checked, axioms propext/Classical.choice/Quot.sound only): MJ.C01.*_no_panic / *_alloc_le / range_items_exact / mergeSeq_depth_bounded about the hand-transcribed kernels in MJ/Model/Kernels.lean (+ Slice.lean via C09), validated against the real code on their whole boundary boxes through templates/Expression::eval/formatting::format (value and panic/no-panic outcome compared with drive_c01); MJ.C01.parser_cycles_guarded by `decide +kernel` on the call graph that lib/tables/c01.py regenerates from parser.rs, with MJ.CallGraph.runBound_sound / chain_length_lt; MJ.C01.nesting_exact / nesting_error_exact / ast_depth_bound about MJ/Model/Nesting.lean (hand model of the guard counter and of the expr_nesting save/reset/bump/max protocol; the protocol's presence in every loop function is checked textually by the extractor, the accept/reject verdicts of the real parser are compared with the model on derivations around the limit, unparsed to source); MJ.C01.checkStk_sound (MJ/Model/Stk.lean, MJ/Proofs/Stk.lean): soundness of the operand-stack certificate checker for the abstract machine of one eval_impl activation incl. loop recursion (relative stacks, floors of recursive loops). MJ.C01.meta_scope_table_balanced / meta_walk_arms_balanced / meta_scopes_no_panic / meta_walk_arm_height_unchanged (MJ/Model/Scopes.lean, MJ/Proofs/Scopes.lean: big-step semantics of scope-stack programs incl. mutual recursion, silent Vec::pop, mem::replace isolation; the programs are REGENERATED by lib/tables/c01.py + lib/c01_rustscan.py from the text of meta.rs — push/pop/assign/if/match/for/closures; the shapes of AssignmentTracker::{push,pop,assign,is_assigned} and the one-scope initial stack are checked textually; functions without scope operations are over-approximated by any number of their need/call events in any order); MJ.C01.codegen_pending_block_table_ok / codegen_pending_block_safe (MJ/Model/KStack.lean, MJ/Proofs/KStack.lean: programs over stacks of PendingBlock kinds with per-method signatures, regenerated from codegen.rs incl. early returns rewritten structurally, the sub-generator of {% block %} and a driver `compile_stmt* ; finish` as entry points; only the KIND discipline is modelled, the `unreachable!()` arms that depend on WHICH instruction a remembered index points to stay class d); MJ.C01.getLine_no_panic / getSpan_no_panic (about C13's model MJ/Model/Loc.lean, binary search contract Ok(i) ⇒ i < len, Err(i) ⇒ i ≤ len), smallStr_no_panic / smallStr_char_fits (MJ/Model/Sites.lean, capacity regenerated); MJ.C01.all_panic_sites_classified / panic_guards_as_tabled / panic_evidence_given / panic_site_class_counts by `decide +kernel` on MJ.Gen.panicSites vs MJ/Model/PanicSites.lean (the classification is a HAND judgement per row: class a means the named theorem covers the arithmetic / access of that function in its kernel model, class b that the tabled guard is adequate — the theorem only guarantees that the table is complete, that counts and guards have not changed, and that evidence is named; the scanner is syntactic: `arith` counts every binary + - * / % << >> and compound assignment incl. float and checked contexts, method-call panics such as RefCell borrows or slice::copy_from_slice are not sites). MOVED FROM VALIDATED TO PROVED in this round: the scope stack of meta.rs (1 site, was oracle only and the seeded C01-5 was missed), pending_block kind discipline (4 sites), get_line/get_span (6 sites), SmallStr (5 sites). MOVED FROM VALIDATED TO PROVED in session 4: the integer arms of ops::add/sub/mul/rem/int_div/pow/neg and filters::abs (MJ.C01.intOps_no_panic for all integer pairs, intOps_exact; hand transcription MJ/Model/IntOps.lean incl. the plain `a * a` / `b % 2` of the unit-base fallback and `(x as i128).abs()`; checkedPow decides |a| >= 2, e >= 128 without computing the power — a definitional shortcut of the model, not proved equal to a^e; correspondence: stream `k intop` = 6 binary operators x 33x33 boundary integers of all four representations + neg/abs, value compared with drive_c01; `k intoplit` the same through literals = constant folding, oracle only) — 6 rows / 12 sites from d/b to a; compile_call_args assert + casts (MJ.C01.callArgs_fit_u16 with Gen.parserMaxArgs regenerated; probes `d w:<kind> 65535/65536` for every counted construct) — 2 rows / 4 sites; python_string_debug_fmt (MJ.C01.reprStr_no_panic, all strings, all escaping rules; correspondence `k reprstr`: all strings of length <= 3 over a 16-character alphabet of every escaping class and UTF-8 width, number of bytes written compared) — 3 rows / 6 sites; render_debug_info line-window arithmetic (MJ.C01.debugWindow_no_panic for every line number and every source below 2^63 lines; correspondence `k dbgwin`: the line numbers the real debug output prints for every error line of 1..9-line templates and both ends of a 50-line one) — 2 rows / 7 sites; C01_statement + C01_main (the gap as named hypotheses, see text). The classification follows /repo HEAD (debug.rs render_debug_info lost its 6 unwraps in fix 959b12c). NOT proved: the code generator's output — covered by translation validation (the verified checker accepts every real stream of the run: fixtures, builtin-call templates, compiling mutants, depth-probe templates), not by a theorem about codegen.rs; the effect table mapping Instruction -> abstract instruction is a hand transcription (harness stk_tok, exhaustive match) tied dynamically by the verif_hooks::opstack hook (every dispatched instruction of every render: observed height transition vs table). What is ONLY SEARCHED (bounded, sampled; a finding is a witness, absence of findings is not a proof): native stack use of the AST walkers, of Value Display/serialize/Drop on deeply nested run-time values and of VM re-entry (AST depth is bounded by theorem, frame sizes are not modelled), allocator behaviour, the frame/capture stacks (C05), every builtin filter/test/function/loop/namespace/macro call on a boundary value zoo, format-string grammar, template mutants, error formatting; only the harness' dev profile (opt-level 1, overflow checks + debug assertions) in the quick tier, release added in thorough. Assumed: the guard macro has the extracted shape (checked textually), size_of::<Value>() = 24 (checked at run time), 64-bit target, allocation failure below the named limits does not occur (2 GiB cap in the workers), a loop object is only called where the model allows recursion (any CallFunction with one argument / FastRecurse may enter any recursive loop of the stream). Hangs (timeouts) are reported in the histogram, not counted as crashes.",
 }
 
 NEEDED_TABLES = ["PARSER_CALL_GRAPH", "RECURSION_GUARD_SHAPE", "RANGE_LIMIT", "UNTRUSTED_SIZE_HINT_CAP", "MAX_EXPR_NESTING",
@@ -303,7 +303,7 @@ def run(r):
               "lexer columns) compared with the Lean model; builtins: every name registered in defaults.rs x receiver zoo x argument "
               "lists (none, each zoo value, sampled pairs/triples/kwargs); mutants: seeds from fuzz/ and tests/inputs + grammar-aware "
               "mutations; depth probes: 63 constructs x depths; compositions: 33 statement kinds x 15 container kinds nested to depth 2 exhaustively (depth 3+ sampled) x user statements before/after at every level, ordered sibling pairs in every container, 34 expression kinds nested to depth 2 (deeper sampled), loaded through 7 API paths, undeclared_variables(true/false), rendered; accumulate-loop probes (4000 rounds, thorough 10000) on a 256 KiB stack; each case on the main thread and on a 2 MiB thread in child processes (pool of 16 worker slots, heavy cases first) "
-              "under a 2 GiB cap; session 4: kp = every builtin filter/test/function/pycompat method (+ map/select/reject by name) x receiver of every value kind (strings plain / safe from the host / |safe / set-block capture / macro result / |e) x {no argument, every kind as the only argument} exhaustively, every kind in 2nd/3rd and keyword position (names read from kwargs.get in the sources), under the other undefined behaviours whenever an undefined value is involved; configuration axis ctx + 4*cfg on every t/e case (mutants: half of them rewritten into one of six syntax configurations and damaged with its delimiters, line prefixes, whitespace of every width around every delimiter; every seed under every syntax); intop 6 operators x 33x33 integers + neg/abs; reprstr all strings <= 3 over 16 characters; escape grammar (octal/hex/unicode escapes at their boundaries, ordered surrogate pairs); format conversions: every type x flag x width x precision x 20 one-argument sets; value probes (intval / loopindex) around every integer constant; "
+              "under a 2 GiB cap; session 4: kp = every builtin filter/test/function/pycompat method (+ map/select/reject by name) x receiver of every value kind (strings plain / safe from the host / |safe / set-block capture / macro result / |e) x {no argument, every kind as the only argument} exhaustively, every kind in 2nd/3rd and keyword position (names read from kwargs.get in the sources), under the other undefined behaviours whenever an undefined value is involved; configuration axis ctx + 4*cfg on every t/e case (mutants: half of them rewritten into one of six syntax configurations and damaged with its delimiters, line prefixes, whitespace of every width around every delimiter; every seed under every syntax, every seed x 15 kinds of whitespace (every UTF-8 width, every line break) around its delimiters with the whitespace switches rotating); intop 6 operators x 33x33 integers + neg/abs; reprstr all strings <= 3 over 16 characters; escape grammar (octal/hex/unicode escapes at their boundaries, ordered surrogate pairs); format conversions: every type x flag x width x precision x 20 one-argument sets; value probes (intval / loopindex / longstr / vars / bigint) around every integer constant, rendered under each auto-escape mode (none, html, json: each has its own output path); debug-output line window (dbgwin); "
               "a case is non-trivial when the real code ran to a value or to an error other than TooManyArguments/Unknown* (distinct per profile/thread)")
     r.assumptions = [
         "operand stack: the per-instruction effect table is the exhaustive match `stk_tok` of harness/src/bin/c01.rs (hand transcription of vm/mod.rs eval_impl), tied dynamically: the verif_hooks::opstack hook reports (activation, pc, stack height) for every dispatched instruction of every render of the oracle run and every transition is compared with the table; recursion into a loop may target any recursive loop of the stream; nested evaluations (macro calls, blocks, includes) run their own activation on their own stack",
